@@ -354,6 +354,18 @@ def validity_sweep(ctx, specs, lefts):
                          ticket_specs={0: (unit, amount, left_s)})
 
 
+def two_senders_joiner(ctx, phases):
+    """stations 0 and 1 exchange CAMs from t=0; station 2 joins knowing only root and AA, hears digest-signed CAMs of BOTH
+    before its own first CAM, so that its request lists two tickets: each of the two must answer with its certificate"""
+    for phase in phases:
+        ev = [(t, 0, "cam", bytes([0, t // 200 % 256, 9])) for t in range(0, 5000, 200)]
+        ev += [(t, 1, "cam", bytes([1, t // 200 % 256, 8])) for t in range(70, 5000, 200)]
+        join = 1500 + phase
+        ev += [(t, 2, "cam", bytes([2, (t - join) // 450 % 256])) for t in range(join + 310, 5000, 450)]
+        ev += [(join + 2000, 1, "denm", b"\x0d"), (join + 2100, 2, "generic", b"\x0e")]
+        run_schedule(ctx, 3, {0: [1], 1: [0]}, {0: 0, 1: 0, 2: join}, ev, f"two_senders_joiner/phase{phase}")
+
+
 def random_schedule(ctx, k):
     rng = ctx.rng
     n = rng.choice([2, 3, 3, 4, 5])
@@ -394,6 +406,7 @@ def run(ctx):
                      [(t, i, kind, bytes.fromhex(d)) for t, i, kind, d in rec["events"]], "corpus/" + rec.get("name", ""))
     phases = [0, 1, 249, 250, 251, 600, 749, 750, 751, 999, 1000, 1001, 1249] if quick else list(range(0, 1300, 25)) + [999, 1001]
     late_joiner_sweep(ctx, phases, [{}, {1: [0]}] if quick else [{}, {1: [0]}, {0: [1]}, {0: [1], 1: [0]}])
+    two_senders_joiner(ctx, [0, 130, 260] if quick else list(range(0, 1000, 50)))
     validity_sweep(ctx, VALIDITY_SPECS if not quick else [VALIDITY_SPECS[i] for i in (0, 2, 3, 5, 7, 9)],
                    [3600 + 20, 20] if quick else [5 * 3600, 3600 + 20, 61, 20])
     for k in range(5 if quick else 60):
